@@ -1077,7 +1077,7 @@ func r117(c *Ctx, r *R) {
 				if guardedBy(ci.Block(), func(g Guard) bool {
 					return gNil(g, true, func(v ssa.Value) bool {
 						cc, _ := originCall(v)
-						return cc != nil && nameMatches(callName(cc.Common()), "adder.Adder).FromMultipart")
+						return cc != nil && callMatches(cc.Common(), "adder.Adder).FromMultipart")
 					})
 				}) {
 					setOnErr = true
@@ -1385,17 +1385,35 @@ func r097(c *Ctx, r *R) {
 	if al == nil {
 		return
 	}
-	sites, _ := c.callSitesOf(al)
-	for _, s := range sites {
-		f := s.Parent()
-		b := s.Block()
-		var header *ssa.BasicBlock
+	loopOf := func(b *ssa.BasicBlock) *ssa.BasicBlock {
 		for d := b; d != nil; d = d.Idom() {
 			if inNaturalLoop(b, d) {
-				header = d
-				break
+				return d
 			}
 		}
+		return nil
+	}
+	// a call of alert() outside any loop in an unexported helper stands
+	// for the helper's own call sites (`alertIfFailed(name, peer)`)
+	var sites []ssa.CallInstruction
+	var lift func(fn *ssa.Function, depth int)
+	lift = func(fn *ssa.Function, depth int) {
+		ss, _ := c.callSitesOf(fn)
+		for _, s := range ss {
+			p := s.Parent()
+			if loopOf(s.Block()) == nil && depth < 2 && p.Object() != nil && !p.Object().Exported() {
+				if up, _ := c.callSitesOf(p); len(up) > 0 {
+					lift(p, depth+1)
+					continue
+				}
+			}
+			sites = append(sites, s)
+		}
+	}
+	lift(al, 0)
+	for _, s := range sites {
+		f := s.Parent()
+		header := loopOf(s.Block())
 		key := "per-pair:" + f.Name()
 		if header == nil {
 			r.OK(key, s.Pos(), "alert() is not called in a loop")
@@ -1432,7 +1450,11 @@ func r097(c *Ctx, r *R) {
 		// looked at again because the peer still has other metrics is
 		// reported again and again
 		if f.Name() == "CheckPeers" {
-			for _, fm := range findCalls(f, false, "metrics.Checker).FailedMetric") {
+			fms := findCalls(f, false, "metrics.Checker).FailedMetric")
+			if len(fms) == 0 {
+				fms = append(fms, s) // decided inside the helper this site calls
+			}
+			for _, fm := range fms {
 				for _, g := range guardsOf(fm.Block()) {
 					if g.Derived {
 						continue
